@@ -39,6 +39,9 @@ CONFIGS = {          # registration order = tuple order
     "udp2": {"eps": ("a", "u"), "udp": ("u",)},
     "mix3": {"eps": ("a", "b", "u"), "udp": ("u",)},
     "dbl1": {"eps": ("a",), "udp": ()},
+    # two real UDP objects that carry the SAME display name (CommsObject.setName - a label; the hub's key is what identifies
+    # an endpoint): whatever the hub compares, looks up or removes must go by endpoint, not by what the label says
+    "udpn": {"eps": ("u", "v"), "udp": ("u", "v"), "display": "link"},
 }
 # fields of an endpoint that are logs of the current transition (observations), not state
 _EP_LOGS = ("script", "sent", "polls")
@@ -243,6 +246,8 @@ def build_world(cfg_name, full_key=False, hub_cls=None):
             hub.newComPort(name, "UDP", "127.0.0.1", 8000 + i, 9000 + i, 0.0002)
             if hub.openCom(name) is not True or not isinstance(hub.getCom(name).comm_handle, rm.FakeSocket):
                 raise HarnessError("could not open the UDP endpoint on the fake socket")
+            if cfg.get("display"):
+                hub.getCom(name).setName(cfg["display"])
         else:
             hub.endpoints[name] = rm.Dbl(name)
         eps[name] = hub.endpoints[name]
@@ -561,7 +566,7 @@ def run(ctx):
     ctx.level = "model_checking"
     thorough = ctx.tier == "thorough"
     full = "full" if thorough else "lean"
-    plan = [("dbl2", 6), ("udp2", 5), ("mix3", 4), ("dbl1", 6)] if thorough else [("dbl2", 4), ("udp2", 4)]
+    plan = [("dbl2", 6), ("udp2", 5), ("mix3", 4), ("dbl1", 6), ("udpn", 5)] if thorough else [("dbl2", 4), ("udp2", 4), ("udpn", 4)]
     if thorough and os.environ.get("VERIF_C19_DEPTH"):
         plan[0] = ("dbl2", int(os.environ["VERIF_C19_DEPTH"]))
     results = []
